@@ -179,6 +179,19 @@ func (s *scheduler) pick(c []*vmG, why string) *vmG {
 	if len(c) == 1 {
 		return c[0]
 	}
+	if !s.preempt {
+		// the relative order of container-spawned watcher goroutines is a
+		// decision only when the harness asks for it (vrt.Preempt)
+		allBg := true
+		for _, g := range c {
+			if !g.background {
+				allBg = false
+			}
+		}
+		if allBg {
+			return c[0]
+		}
+	}
 	k := s.i.run.choose(len(c), "sched")
 	return c[k]
 }
